@@ -624,6 +624,8 @@ func (r *runner) run() {
 		r.tryLock("trylock-size-mismatch", "exists with size 1", cSizeMismatch, A, p32(2), nil)
 		r.lock("lock-size-mismatch", "exists with size 1", cSizeMismatch, A, p32(2), nil, nil)
 		r.tryLock("trylock-refusal", "size 1, held", refusal, A, nil, nil)
+		r.tryLock("trylock-size-0-existing", "exists with size 1, held", cInvalidSize, A, p32(0), nil)
+		r.lock("lock-size-negative-existing", "exists with size 1, held", cInvalidSize, A, p32(-1), nil, nil)
 		r.lock("lock-wait-timeout", "size 1, held for the whole wait of 1 s", cWaitTimeout, A, nil, nil, p32(1))
 		r.unlock("unlock-grant", "held under this key", ok, A, K)
 		r.renew("renew-after-unlock", "unlocked a moment ago", cRenew, A, K, 10)
@@ -641,6 +643,8 @@ func (r *runner) run() {
 		c1 := r.tryLock("trylock-grant-size2", "fresh name, size 2", ok, C, p32(2), nil)
 		c2 := r.grant("lock-grant-size2", "size 2, one unit held", C, p32(2), p32(60), p32(1))
 		r.tryLock("trylock-refusal-size2", "size 2, both units held", refusal, C, p32(2), nil)
+		r.tryLock("trylock-size-negative-existing-full", "exists with size 2, both units held", cInvalidSize, C, p32(-3), nil)
+		r.lock("lock-size-0-existing-full", "exists with size 2, both units held", cInvalidSize, C, p32(0), nil, p32(1))
 		r.tryLock("trylock-size-mismatch-default", "exists with size 2, request without size (= 1)", cSizeMismatch, C, nil, nil)
 		r.lock("lock-size-mismatch-3", "exists with size 2", cSizeMismatch, C, p32(3), nil, p32(1))
 		r.lock("lock-wait-timeout-size2", "size 2, both units held for the whole wait of 1 s", cWaitTimeout, C, p32(2), nil, p32(1))
